@@ -128,7 +128,7 @@ def materialise(scn, root):
     entries = [(e['path'], _data(e), e['mtime'], e) for e in scn['tree']]
     with core.unhooked():
         if scn['kind'] == 'dir':
-            top = os.path.join(root, 'mibs')
+            top = os.path.join(root, 'mibs+vendor 1.0' if scn.get('plus_name') else 'mibs')     # '+' and a blank are ordinary characters in a path
             os.makedirs(top)
             for path, data, mtime, fl in entries:
                 p = os.path.join(top, path)
@@ -153,7 +153,7 @@ def materialise(scn, root):
                     os.rename(os.path.join(top, pick), os.path.join(root, 'kept-elsewhere', pick))
                     os.symlink(os.path.join(root, 'kept-elsewhere', pick), os.path.join(top, pick))
             return top
-        top = os.path.join(root, 'arch' + scn.get('zipext', '.zip'))
+        top = os.path.join(root, ('arch+git 2020' if scn.get('plus_name') else 'arch') + scn.get('zipext', '.zip'))
         with open(top, 'wb') as f:
             if scn.get('notazip'):
                 f.write(b'this is not a zip archive at all')
@@ -166,14 +166,15 @@ def make_url(scn, top):
     st = scn.get('url_style', 'bare')
     if st == 'bare':
         return top
+    q = top.replace('%', '%25').replace(' ', '%20')        # in a URL the blank is written %20; '+' stands for itself
     if st == 'file':
-        return 'file://' + top
+        return 'file://' + q
     if st == 'zip':
-        return 'zip://' + top
+        return 'zip://' + q
     if st == 'file-host':
-        return 'file://localhost' + top       # RFC 8089: an explicit local authority names the same file
+        return 'file://localhost' + q       # RFC 8089: an explicit local authority names the same file
     if st == 'zip-host':
-        return 'zip://localhost' + top
+        return 'zip://localhost' + q
     return top
 
 
@@ -300,6 +301,20 @@ def run(scn):
                 corev = with_exts(core_names(name, o) | fuzzy_must(name, o))
             A_wide = [l for l in leaves if l['base'] in wide and l['reachable']]
             A_core = [l for l in leaves if l['base'] in corev and l['reachable'] and not l['corrupt'] and 0 < len(l['data']) < cap]
+            if idx is not None and '/' in idx:
+                # an index entry that names its file with a directory part: the file is looked for under that path below
+                # every directory that is searched
+                dirs_ = set([''])
+                if scn.get('recursive', True):
+                    for e in scn['tree']:
+                        p_ = os.path.dirname(e['path'])
+                        while p_:
+                            dirs_.add(p_)
+                            p_ = os.path.dirname(p_)
+                okp = set(os.path.normpath(os.path.join(D_, idx)) for D_ in dirs_)
+                by_path = [l for l in leaves if l['path'] in okp]
+                A_wide = by_path + ([l for l in A_wide if l not in by_path] if w.fired else [])
+                A_core = [l for l in by_path if not l['corrupt'] and 0 < len(l['data']) < cap]
             # a core candidate that is shadowed by an earlier-tried candidate which is too large / empty / corrupt may legitimately lead to an error
             blockers = [l for l in A_wide if l['corrupt'] or len(l['data']) >= cap or len(l['data']) == 0]
             facts = {'options': sorted(k for k in OPTS if not o.get(k, True)), 'cap': scn.get('maxMibSize'), 'index': idx is not None, 'faulted': faulted,
@@ -312,9 +327,10 @@ def run(scn):
                     V('C14.1-right-file', 'constructing the reader raised %s' % res[1], what='construct-raised', exception=res[1], **facts)
             elif rescls == 'ok':
                 info, text = res[1], res[2]
-                match = [l for l in A_wide if decode(l['data']) == text and l['mtime'] == info.mtime and l['base'] == info.file and not l['corrupt']]
+                fkey = 'path' if (idx is not None and '/' in idx and info.file == idx) else 'base'     # an index entry with a directory part is reported as given
+                match = [l for l in A_wide if decode(l['data']) == text and l['mtime'] == info.mtime and (l['base'] == info.file or (fkey == 'path' and l['path'] in okp)) and not l['corrupt']]
                 if not match:
-                    byname = [l for l in leaves if l['base'] == info.file]
+                    byname = [l for l in leaves if l['base'] == info.file or (fkey == 'path' and l['path'] in okp)]
                     if info.file not in wide:
                         V('C14.3-unrelated', 'request %s answered from file %s, which is not a variant of the name' % (name, info.file), what='unrelated-file', file=info.file, **facts)
                     elif not any(decode(l['data']) == text for l in byname):
@@ -432,6 +448,9 @@ def run_url(scn):
 # --------------------------------------------------------------------------
 def _data(e):
     """payload of a tree entry (a few entries carry megabytes of trailing blanks, kept out of the scenario as a count)"""
+    if e.get('padkind') == 'random' and e.get('pad'):
+        import random as _r
+        return binascii.unhexlify(e['hex']) + b'\n-- ' + _r.Random(int(e['pad'])).randbytes(int(e['pad'])).replace(b'\n', b' ').replace(b'\r', b' ')
     return binascii.unhexlify(e['hex']) + b' ' * int(e.get('pad', 0))
 
 
@@ -510,6 +529,8 @@ def generate(rng, tier):
         scn['more_requests'] = others
     if rng.random() < 0.2:
         scn['decoy'] = rng.choice(['zip-before', 'dir-before', 'zip-after', 'dir-after'])
+    if rng.random() < 0.12:
+        scn['plus_name'] = True
     if kind == 'dir' and rng.random() < 0.15:
         scn['linkdir'] = rng.randrange(1, 7)
     if kind == 'dir':
@@ -520,6 +541,9 @@ def generate(rng, tier):
             scn['ignoreErrors'] = False
         if rng.random() < 0.2:
             tgt = rng.choice([os.path.basename(e['path']) for e in tree] + ['nosuchfile.txt'])
+            deep = [e['path'] for e in tree if '/' in e['path'] and '!/' not in e['path']]
+            if deep and rng.random() < 0.3:
+                tgt = rng.choice(deep)        # the index names the file with its directory
             scn['index'] = [[name if rng.random() < 0.7 else 'UNRELATED-MIB', tgt]]
             if rng.random() < 0.2:
                 scn['useIndexFile'] = False
@@ -539,8 +563,10 @@ def generate(rng, tier):
     if big and tree:
         # one file of just over 10 000 000 bytes (the readers' default size limit) with the limit raised well above it
         e_ = rng.choice(tree)
-        if '!/' not in e_['path'] and not e_['path'].lower().endswith('.zip'):
+        if not e_['path'].lower().endswith('.zip'):
             e_['pad'] = 10000100 - len(e_['hex']) // 2
+            if '!/' in e_['path']:
+                e_['padkind'] = 'random'      # incompressible: the nested archive that carries it is itself over 10 MB
             scn['maxMibSize'] = 25000000
     if rng.random() < 0.25 and not big:
         scn['rate'] = {'p': rng.choice([0.03, 0.1, 0.3]), 'seed': rng.randrange(1 << 30),
